@@ -33,14 +33,14 @@ CHECKS["C03"] = dict(
           "_construct_hole_edge_indices satisfy Incidence.Spec: node_face and edge_face are exact transposes of face_node / "
           "face_edge, a boundary edge is [face, FILL], face_face lists each neighbour once per shared edge, hole edges are "
           "exactly the single-incidence edges. All three loops are instances of one proved fact about table-updating loops "
-          "(keyedFold_get). pre_of_edges_build / pipeline_meets_spec compose C02 and C03: on EVERY manifold standard-form face table the "
+          "(keyedFold_get). sub_pre / sub_manifold / sub_incidence_le / sub_distinct_faces / sub_meets_spec: for EVERY sub-mesh given by a duplicate-free face selection, the duplicate-free list of the selected faces' real edges and a renumbering (SubMesh), each face-slot incidence of a sub-edge is an incidence of its source edge in a selected face, so manifoldness, the whole precondition Pre and 'the two faces of an edge are distinct' (= no face lists an edge twice) are inherited: sub-grids of a grid meeting Pre satisfy the spec with no precondition left to evaluate on the subset. nodeFace_rectangular / nodeFace_width_is_max_valence / faceFace_rectangular: the tables are rectangular, n_max_node_faces is the largest valence, a face never has more neighbour entries than real edge slots (np.pad is never asked for a negative width); nodeFace_row_ascending / edgeFace_row_ordered / holes_ascending / faceFace_row_by_edge: the order inside the rows the loops produce. pre_of_edges_build / pipeline_meets_spec compose C02 and C03: on EVERY manifold standard-form face table the "
           "edge tables derived by the C02 model meet Pre (manifoldness is the only hypothesis left, a fact about the mesh), so the incidence "
-          "tables built from them satisfy the spec end to end. The model is tied to the code by a differential run (outputs identical, 48/48 in quick) and the "
-          "same Lean predicate is evaluated on the implementation's output; dtype and _FillValue are run-time assertions. Grids DERIVED from the "
+          "tables built from them satisfy the spec end to end. The model is tied to the code by a differential run (outputs identical, 152/152 in quick) and the "
+          "same Lean predicate is evaluated on the implementation's output of EVERY case of any size: the driver decides Pre and Spec with preFast / failingFast (one run of each builder + row-by-row comparison up to what the spec leaves free), PROVED equal to the specification's own Booleans (preFast_eq, no hypothesis; specFast_eq_spec, under Pre, for every candidate output; failingFast_eq, unconditional) and cross-checked against the specification's own cubic decision procedure on every case of <= 12 faces; dtype and _FillValue are run-time assertions. Grids DERIVED from the "
           "generated ones (random reads on the parent first - incl. the incidence tables themselves - then isel by faces in any order / nodes / "
-          "edges, chains, copy()) are judged by the same spec against their own face table."),
+          "edges, chains, copy()) are judged by the same spec against their own face table. File-supplied tables (MPAS sample primal and dual; synthetic ICON-style sources, closed and with holes, one-based int32 tables with 0/-1 for a missing neighbour) and the suite's larger sample grids (up to 3840 faces in quick, 5400 in thorough) are judged by the same Lean spec."),
     note=_TB + "Modelled, not verified: Python dict/list/np.pad semantics, numba compilation of the edge_face loop; "
-         "face_edge/n_nodes_per_face are inputs (their correctness is C02). File-supplied tables (MPAS) only when small enough.",
+         "face_edge/n_nodes_per_face are inputs (their correctness is C02). Sample data files are read from /repo when the tree under test carries none.",
     technique="Lean 4 theorem over a hand model + differential correspondence with Lean-evaluated spec",
 )
 
@@ -253,13 +253,13 @@ CHECKS["C04"] = dict(
 )
 
 CHECKS["C09"] = dict(
-    text=("Lean theorems (UxVerif.C09, 137 obligations) about the model of _slice_face_indices: "
+    text=("Lean theorems (UxVerif.C09 + C09x, 145 obligations) about the model of _slice_face_indices: "
           "slice_meets_spec — for EVERY source whose own edge tables meet C02's spec and EVERY valid duplicate-free face-index list the "
           "subset records exactly the request, every subset face has the corners of its source face in the same order (read through the "
           "recorded node indices), its nodes/edges are exactly those of the selected faces, and its re-indexed edge tables satisfy C02's "
           "Edges.Spec OF THE SUBSET (slice_functional); slice_eq_fresh — they equal a from-scratch edge construction on the subset; "
           "slice_history_independent / built_grid_end_to_end — for every history of requests on the source before slicing and every order of "
-          "requests afterwards nothing raises and the same tables are reported (state machine over the variables/attributes that travel); efd_transport / efd_history_independent_of_pre — the source's edge_face_distances kept where both faces were selected and renumbered EQUAL what the subset derives from its own table, proved from C03's EdgeFaceOK on both grids plus DistinctFaces (no per-case model equation left); Props/C09x (extension module, audited with C09): slice_simple / distinctFaces_of_simple / distinctFaces_slice_of_simple / efd_history_independent_of_simple discharge both DistinctFaces hypotheses from C02's edge_faces_distinct when the faces are simple (pairwise distinct corners, at least three); "
+          "requests afterwards nothing raises and the same tables are reported (state machine over the variables/attributes that travel); efd_transport / efd_history_independent_of_pre — the source's edge_face_distances kept where both faces were selected and renumbered EQUAL what the subset derives from its own table, proved from C03's EdgeFaceOK on both grids plus DistinctFaces (no per-case model equation left); Props/C09x (extension module, audited with C09): slice_simple / distinctFaces_of_simple / distinctFaces_slice_of_simple / efd_history_independent_of_simple discharge both DistinctFaces hypotheses from C02's edge_faces_distinct when the faces are simple (pairwise distinct corners, at least three); Part 2 wires C03's incidence transport: subMesh_slice / pre_slice (Incidence.Pre of the subset is a THEOREM), efdTransport_of_pre' / efd_history_independent_of_pre' / subset_incidence' (the C09 theorems WITHOUT any hypothesis about the subset) and efd_history_independent_of_simple_src (from Slice.Pre, C03's Pre of the SOURCE and simple faces only); "
           "nodes_inclusive/edges_inclusive/slice_nodes_meets_spec — node and edge selections are inclusive; data_aligned_rank — sliced data are "
           "the source's at the recorded indices for any rank; crosssec_iff + mask_order_irrelevant — a face is selected iff one of its edges "
           "has end nodes strictly on opposite sides of the parallel, for any iteration order of the parallel loop; box_iff/inLon_iff/circle_iff/"
@@ -272,7 +272,7 @@ CHECKS["C09"] = dict(
     note=_TB + "Modelled, not verified: xarray isel/attrs/drop_vars and NumPy unique/fancy indexing (differential only); reference-point "
          "dask / xarray lazy-array semantics themselves (what .values, .where and isel do on a dask array) are only exercised, not modelled: the model states that the backing is irrelevant and the differential run fails wherever the implementation makes it relevant; coordinates (C04) and tree distances (C11) are taken from the implementation and judged with a 1e-9 margin; numba prange "
          "scheduling is exercised with 1/2/7/16 threads (set_num_threads per case, NUMBA_NUM_THREADS sub-processes in thorough) but only the "
-         "order-independence of the loop body is proved; Incidence.Pre and DistinctFaces of the subset are evaluated per case (static decidable table properties), not derived from the source's; "
+         "order-independence of the loop body is proved; Incidence.Pre and DistinctFaces of the subset are still evaluated per case as a cross-check, and are now also theorems (Props/C09x: pre_slice, distinctFaces_slice_of_simple); "
          "geometric quantities of the subset are compared with the source's at the recorded indices (float tolerance 1e-9). Latitudes equal "
          "to a node's are judged EXACTLY (Lean CrossExact on the implementation's own doubles, facesAt_meets_crossExact) whenever no other "
          "node lies within 1e-9; only genuinely near (unequal) nodes fall under the margin.",
@@ -431,13 +431,13 @@ CHECKS["C08"] = dict(
           "UGRID and MPAS files) is compared with the fresh-copy reference computed in a separate worker that restores every container of "
           "uxarray.conventions.*/constants; exports and inventories by the superset rule; globals digested before/after each op; verdict = Lean "
           "traceOK on the observed trace; the Lean model predicts Grid._ds's variable set and dask flags after every step; JIT-off worker; "
-          "thorough: all pairs, fresh interpreters, leanchecker."),
-    note=_TB + "Proved: the memoisation/cache/world theorems above, for the model. Differential-test level only: that each public method reads "
-          "exactly what the table says (Grid._ds vs model store after every step), JIT on/off equality (floats to 1e-5 rel / 1e-8 abs), dask "
+          "thorough: all pairs, fresh interpreters, leanchecker. The populate-unit table itself is REGENERATED from the source on every run (harness/translate_c08.py: ast over uxarray/grid/*.py -> Gen/GridWrites.lean: per getter the _ds keys / private attributes written with provenance, getters read, longitude-wrap calls, module-level / in-place / unmodelled writes) and re-proved equal to the model's table: gen_no_unlisted_writes, gen_units_match, gen_same_meaning, gen_wraps (decide +kernel against today's source), so the well-formedness proof ux_wfVar and the history-independence theorems are about the source's read/write table, not a hand transcription. Every module-level dict/list/set/ndarray of every loaded uxarray.* module (62 at present) is digested around every history (signature C08/globals-wide/...)."),
+    note=_TB + "Proved: the memoisation/cache/world theorems above, for the model. Differential-test level only: which stored values feed each write and the presence guards of the populate functions "
+          "(hand-transcribed; tied by the value comparison with the fresh-copy reference), the read sets of METHODS (exporters, trees, isel...; Grid._ds vs model store after every step) - the read/write sets of the property getters are regenerated from the source and proved equal to the model's (gen_units_match); JIT on/off equality (floats to 1e-5 rel / 1e-8 abs), dask "
           "semantics, numpy/xarray/sklearn/shapely/matplotlib behind the observations, results of isel/subset/get_dual/copy (opaque terms; "
           "observed by a digest of the returned grid). Inventory attributes (dims, sizes, coordinates, connectivity, descriptors) and "
           "to_xarray('ugrid') are judged by the property's export clause (superset with fresh values); quadrature orders restricted to the "
           "documented ones; normalize_cartesian_coordinates / construct_face_centers are mutators and not part of histories. One known finding "
           "(JIT on: float32 Cartesian areas raise a numba TypingError, JIT off they do not).",
-    technique="Lean 4 theorems over a table-driven memo/cache state machine (transcription proved well-formed; as-is counterexamples) + history-fuzzing correspondence with Lean-evaluated trace spec",
+    technique="Lean 4 theorems over a table-driven memo/cache state machine whose read/write table is regenerated from the source by an ast translator and re-proved equal to the model's (as-is counterexamples) + history-fuzzing correspondence with Lean-evaluated trace spec",
 )
